@@ -333,3 +333,10 @@ Proof.
     rewrite Z.add_mod, A, Z.mul_mod, H4 by lia. reflexivity.
   - intros t Ht. lia.
 Qed.
+
+Theorem mov_unsafe_ok_sound : forall w d code havoc ext st, mov_unsafe_ok w (MovP d) code = true ->
+  mrun havoc ext code st = (mset st 5 (mr st 5 + w / 8 * d), false).
+Proof.
+  intros w d code havoc ext st H. unfold mov_unsafe_ok in H. apply andb_prop in H. destruct H as [_ H].
+  apply code_eqb_eq in H. subst code. reflexivity.
+Qed.
